@@ -15,6 +15,7 @@ LANES = {
     "C04": [dict(REL)],
     "C19": [dict(REL)],
     "C15": [dict(REL), dict(DBG)],
+    "C12": [dict(REL)],
 }
 
 LEVELS = {
